@@ -483,6 +483,43 @@ def _tail_duplicate_return(fn, known):
     return 1
 
 
+def _copy_propagate(fn):
+    """`x = y` between two locals that are each bound exactly once (y possibly a parameter that is never re-bound): x is another
+    name for the same value - every use of x reads y and the copy disappears."""
+    n_done = 0
+    params = {a.arg for a in fn.args.posonlyargs + fn.args.args + fn.args.kwonlyargs}
+    if fn.args.vararg:
+        params.add(fn.args.vararg.arg)
+    if fn.args.kwarg:
+        params.add(fn.args.kwarg.arg)
+    stores = {}
+    for x in ast.walk(fn):
+        if isinstance(x, ast.Name) and isinstance(x.ctx, (ast.Store, ast.Del)):
+            stores[x.id] = stores.get(x.id, 0) + 1
+        elif isinstance(x, ast.ExceptHandler) and x.name:
+            stores[x.name] = stores.get(x.name, 0) + 2
+        elif isinstance(x, (ast.Global, ast.Nonlocal)):
+            for nm in x.names:
+                stores[nm] = stores.get(nm, 0) + 2
+    for node in ast.walk(fn):
+        for fld in ("body", "orelse", "finalbody"):
+            body = getattr(node, fld, None)
+            if not isinstance(body, list):
+                continue
+            for st in list(body):
+                if isinstance(st, ast.Assign) and len(st.targets) == 1 and isinstance(st.targets[0], ast.Name) and \
+                        isinstance(st.value, ast.Name) and st.targets[0].id != st.value.id:
+                    x, y = st.targets[0].id, st.value.id
+                    y_once = (stores.get(y, 0) == 1 and y not in params) or (y in params and stores.get(y, 0) == 0)
+                    if stores.get(x, 0) == 1 and x not in params and y_once and len(body) > 1:
+                        for z in ast.walk(fn):
+                            if isinstance(z, ast.Name) and z.id == x and isinstance(z.ctx, ast.Load):
+                                z.id = y
+                        body.remove(st)
+                        n_done += 1
+    return n_done
+
+
 def _with_suppress(fn):
     """`with contextlib.suppress(E1, E2): BODY` is `try: BODY except (E1, E2): pass` (the documented equivalence; only for the
     single-item form without `as`). Returns the number of rewrites."""
@@ -633,6 +670,7 @@ class Repo:
             n += TI.normalise_function(f.node, kl.get(q, set()))
             n += _with_from_acquire(f.node)
             n += _with_suppress(f.node)
+            n += _copy_propagate(f.node)
             n += _merge_destructuring(f.node)
             n += _with_closing_self(f.node)
             n += _split_tuple_assign(f.node)
